@@ -71,7 +71,18 @@ func vfC15(w *vfWorld) {
 		cfg.Extra = append(cfg.Extra, "--skip-auth-preflight=true")
 	}
 	cfg.SkipButton = t.Bool("c15.skipbutton")
-	w.StartIdP()
+	// credentials that authenticate nobody who is authorised: they must not change a bypass decision either way
+	cfg.EmailDomains = []string{"example.com"}
+	cfg.Extra = append(cfg.Extra, "--skip-jwt-bearer-tokens=true")
+	idp := w.StartIdP()
+	bobToken := idp.MintBearer("bob", nil) // verifies, but bob@other.org is not an authorised address
+	credPool := [][2]string{
+		{"Authorization", "Bearer " + bobToken},
+		{"Cookie", cfg.CookieName + "=bm90LWEtc2Vzc2lvbg==|1700000000|AAAAAAAAAAAAAAAAAAAAAAAAAAAAAAAAAAAAAAAAAAA="},
+		{"Authorization", "Basic aGFuazp3cm9uZw=="},
+		{"Authorization", "Bearer not.a.jwt"},
+		{"X-Forwarded-User", "admin"},
+	}
 	reps := w.Standard(cfg, 1)
 	rep := reps[0]
 	pp := cfg.ProxyPrefix
@@ -150,12 +161,19 @@ func vfC15(w *vfWorld) {
 		// the same request with another query must get the same decision
 		if t.Prob("c15.twin", 300) {
 			q2 := queries[t.Choice("c15.query2", len(queries))]
-			req2 := &vfReq{Method: method, Target: path + q2, NoJar: true, Headers: req.Headers}
+			req2 := &vfReq{Method: method, Target: path + q2, NoJar: true, Headers: append([][2]string(nil), req.Headers...)}
+			if t.Bool("c15.twin-cred") {
+				req2.Headers = append(req2.Headers, credPool[t.Choice("c15.cred", len(credPool))])
+			}
 			r2 := cl.Do(rep, req2)
 			if r2.ParseErr == nil {
 				cs.QueryTwins++
 				if served(r2, path) != got {
-					w.violate("C15", "query-changes-decision", "query-influences-decision", "%s %s: with query %q exempt=%v, with query %q exempt=%v (rules %v)", method, path, q, got, q2, served(r2, path), cs.Routes)
+					key, what := "query-influences-decision", "query"
+					if len(req2.Headers) > len(req.Headers) {
+						key, what = "other-headers-influence-decision", "query / added header "+req2.Headers[len(req2.Headers)-1][0]
+					}
+					w.violate("C15", "query-changes-decision", key, "%s %s: with query %q exempt=%v, with another %s (%q) exempt=%v (rules %v)", method, path, q, got, what, q2, served(r2, path), cs.Routes)
 				}
 			}
 		}
